@@ -825,6 +825,8 @@ class Generator:
                 if cmd in ('fn', 'macrofn', 'macroexpr'):
                     while i < len(lines) and lines[i].strip() != '//@ end':
                         i += 1
+            elif cmd == 'undef':
+                self.defines.discard(tok[1])
             elif cmd == 'define':
                 self.defines.add(tok[1])
             elif cmd == 'unit':
@@ -1111,7 +1113,20 @@ class Generator:
                 edit.generics = list(gen)
         self.spec_registry[kv.get('as', path)] = (edit.spec, list(edit.generics))
         f = self.file(frel)
-        it = self._locate_fn(f, path)
+        if 'impl' in kv:
+            # `//@ fn FILE name impl=REGEX`: the fn `name` inside the one impl block whose (whitespace-normalized) header matches REGEX -
+            # for impls on types that have no plain name (`impl<S> Trait<S> for &[Complex<S>]`)
+            name = path.split('::')[-1]
+            items = []
+            for kw, hdr, o, c in f.blocks(r'(?m)^[ \t]*(?:unsafe\s+)?impl\b'):
+                h = ' '.join(hdr.split())
+                if re.search(kv['impl'], h):
+                    items += f.find_fn(name, o + 1, c)
+            if len(items) != 1:
+                raise Inconclusive('fn %s (impl=%s) in %s: found %d candidates' % (path, kv['impl'], f.path, len(items)))
+            it = items[0]
+        else:
+            it = self._locate_fn(f, path)
         self._emit_fn(it.text, frel, it.first_line, path, kv, edit, trel, tline)
 
     def _do_macrofn(self, frel, macro, fname, kv, edit, trel, tline):
